@@ -19,7 +19,7 @@ func init() { core.Register(c20{}) }
 func (c20) ID() string    { return "C20" }
 func (c20) Level() string { return "exploration" }
 func (c20) Rule() string {
-	return "cases = generated histories (rotated files, batches, values whose last bytes are zero, tombstones of keys ending in 0x00, adopted merges so that a hint file is in the directory, un-adopted merge directories) under both I/O types with 1..5 Backup calls interleaved with continued writing; at each Backup the model is snapshotted; the copy is opened WHILE the source is still open (it must not carry the lock), dumped against the snapshot, written to and restarted (must not affect the source), and closed; the source then continues, deliberately with a value larger than the space left on the active file's last 4 KiB page, a multi-block value, enough data to rotate, and a restart, and is dumped against the model after each. Every case runs in a worker process: the death of the worker (SIGBUS on a truncated mapping) is a violation attributed to the open case. Non-trivial: >=2 backups, >=1 taken with >=3 data files and >=1 after an adopted merge; distinct = hash of (config, op list)"
+	return "cases = generated histories (rotated files, batches, values whose last bytes are zero, tombstones of keys ending in 0x00, adopted merges so that a hint file is in the directory, un-adopted merge directories) under both I/O types with 1..5 Backup calls interleaved with continued writing (in every third case all backups go into the SAME directory, which then already holds the previous backup, with merges adopted in between so that source files shrink); at each Backup the model is snapshotted; the copy is opened WHILE the source is still open (it must not carry the lock), dumped against the snapshot, written to and restarted (must not affect the source), and closed; the source then continues, deliberately with a value larger than the space left on the active file's last 4 KiB page, a multi-block value, enough data to rotate, and a restart, and is dumped against the model after each. Every case runs in a worker process: the death of the worker (SIGBUS on a truncated mapping) is a violation attributed to the open case. Non-trivial: >=2 backups, >=1 taken with >=3 data files and >=1 after an adopted merge; distinct = hash of (config, op list)"
 }
 func (c20) Assumptions() []string {
 	return []string{"process death is attributed through the worker journal", "the copy is opened with the source's configuration and with the other I/O type alternately"}
@@ -75,6 +75,7 @@ func (c20) Run(c core.Case, w *core.Worker) core.Result {
 		backupAt[r.Range(3, sc.NOps)] = true
 	}
 	adopted := false
+	sameDir := c.Index%3 == 2
 	zeroVal := func(k []byte) core.Op {
 		// value ending in zero bytes: vseed 0 pattern is not zero, so craft through a batch of raw put
 		if r.Chance(1, 2) {
@@ -85,6 +86,13 @@ func (c20) Run(c core.Case, w *core.Worker) core.Result {
 	doBackup := func(n int) {
 		snap := s.M.Clone()
 		bdir := filepath.Join(root, fmt.Sprintf("backup%d", n), "db")
+		if sameDir {
+			// repeated backups into the directory that already holds the previous backup
+			bdir = filepath.Join(root, "backup-same", "db")
+			if n > 1 {
+				res.Add("backups_over_previous_backup", 1)
+			}
+		}
 		var err error
 		pv, st := core.Safe(func() { err = s.DB.Backup(bdir) })
 		s.Step++
@@ -136,33 +144,41 @@ func (c20) Run(c core.Case, w *core.Worker) core.Result {
 			bdb.Close()
 			return
 		}
-		// write to the copy and restart it: must not affect the source
 		ck, cv := []byte("~copy-only"), core.FillValue(r.U64(), r.Range(1, 5000))
-		if err := bdb.Put(ck, cv); err != nil {
-			fail("copy-write", "Put on the backup failed: "+err.Error())
+		if sameDir {
+			// the copy is left as Backup wrote it (the next Backup goes into the same directory)
+			if err := bdb.Close(); err != nil {
+				fail("copy-close", "Close of the backup failed: "+err.Error())
+				return
+			}
+		} else {
+			// write to the copy and restart it: must not affect the source
+			if err := bdb.Put(ck, cv); err != nil {
+				fail("copy-write", "Put on the backup failed: "+err.Error())
+				bdb.Close()
+				return
+			}
+			bdb.Delete(keys[0])
+			if err := bdb.Close(); err != nil {
+				fail("copy-close", "Close of the backup failed: "+err.Error())
+				return
+			}
+			bdb, err = kv.Open(ccfg.Options(bdir))
+			if err != nil {
+				fail("copy-open", "the backup cannot be reopened: "+err.Error())
+				return
+			}
+			snap.Put(ck, cv)
+			snap.Delete(keys[0])
+			d, _, _ = core.DumpDB(bdb, snap.Ever)
+			if diff := d.Diff(snap); diff != "" {
+				fail("copy-state", "the backup after its own writes and a restart: "+diff)
+				bdb.Close()
+				return
+			}
 			bdb.Close()
-			return
+			res.Add("copies_written_to", 1)
 		}
-		bdb.Delete(keys[0])
-		if err := bdb.Close(); err != nil {
-			fail("copy-close", "Close of the backup failed: "+err.Error())
-			return
-		}
-		bdb, err = kv.Open(ccfg.Options(bdir))
-		if err != nil {
-			fail("copy-open", "the backup cannot be reopened: "+err.Error())
-			return
-		}
-		snap.Put(ck, cv)
-		snap.Delete(keys[0])
-		d, _, _ = core.DumpDB(bdb, snap.Ever)
-		if diff := d.Diff(snap); diff != "" {
-			fail("copy-state", "the backup after its own writes and a restart: "+diff)
-			bdb.Close()
-			return
-		}
-		bdb.Close()
-		res.Add("copies_written_to", 1)
 		if !s.CheckGet(ck) { // must be absent in the source
 			return
 		}
